@@ -18,7 +18,57 @@ func init() {
 }
 
 func mParam(name string) VMatch {
-	return func(v ssa.Value) bool { pa, ok := v.(*ssa.Parameter); return ok && pa.Name() == name }
+	return func(v ssa.Value) bool { pa, ok := v.(*ssa.Parameter); return ok && paramRefName(pa) == name }
+}
+
+// cellRefName: the name a local variable cell (Alloc) had in the reference tree — the k-th Alloc of
+// the same function — so that renaming a local does not disturb the rules; the current name if the
+// function is new or its number of cells changed.
+func cellRefName(al *ssa.Alloc) string {
+	fn := al.Parent()
+	if fn == nil {
+		return al.Comment
+	}
+	names := refCellNames[fnName(fn)]
+	if names == nil {
+		return al.Comment
+	}
+	k := 0
+	idx := -1
+	for _, b := range fn.Blocks {
+		for _, in := range b.Instrs {
+			if a, ok := in.(*ssa.Alloc); ok {
+				if a == al {
+					idx = k
+				}
+				k++
+			}
+		}
+	}
+	if k != len(names) || idx < 0 {
+		return al.Comment
+	}
+	return names[idx]
+}
+
+// paramRefName: the name the parameter had in the reference tree (same function, same position),
+// so that rules keep recognising a parameter that was merely renamed; the current name if the
+// function is new or its arity changed.
+func paramRefName(pa *ssa.Parameter) string {
+	fn := pa.Parent()
+	if fn == nil {
+		return pa.Name()
+	}
+	names := refParamNames[fnName(fn)]
+	if len(names) != len(fn.Params) {
+		return pa.Name()
+	}
+	for i, q := range fn.Params {
+		if q == pa {
+			return names[i]
+		}
+	}
+	return pa.Name()
 }
 
 func runC01(p *Prog, r *Report) {
@@ -244,7 +294,7 @@ func evStoreCell(name string) InstrPred {
 			return false
 		}
 		al := resolveCell(st.Addr)
-		return al != nil && al.Comment == name
+		return al != nil && cellRefName(al) == name
 	}
 }
 
